@@ -23,14 +23,17 @@ TryFrom<ConsumingIovec> for StableIovec build Ok exactly on the false edge and E
 has_pending_backrefs(), which is !backrefs.is_empty(); (R4.5) bookkeeping: register_patch records
 (logical_size, last_logical_slice_index, len(last_slice) - pattern.len(), pattern.len()) after pushing the
 pattern, on every non-empty path; backfill_or_panic removes the entry, asserts identity and the bounds
-begin + src.len() <= len before the raw copy into get_logical_slice(slice_index) + begin.
+begin + src.len() <= len before the raw copy into get_logical_slice(slice_index) + begin, and validates the length before removing
+(a rejected backfill leaves the placeholder pending); (R4.6) placeholders travel with the bytes they block:
+take() is a whole-value swap, clear() resets both together, no OwningIovec literal or mem::take separates
+slices from backrefs.
 NOT decided: that slice indices stay right under merges and front consumption for all histories (index
 arithmetic, value-level).
 """
 
 ASSUMPTIONS = ['SortedDeque / SlidingDeque clauses (C15, C16)', 'typestate witnesses W1-W3 (compile-fail, thorough tier)']
 
-FLOORS = {'R4.1': 14, 'R4.2': 2, 'R4.3': 5, 'R4.4': 6, 'R4.5': 8}
+FLOORS = {'R4.1': 14, 'R4.2': 2, 'R4.3': 5, 'R4.4': 6, 'R4.5': 9, 'R4.6': 5}
 
 READ_TABLE = {
     OI + '::stable_prefix': 'the funnel itself',
@@ -241,6 +244,18 @@ def r4_5(cx):
     rm = list(bf.calls(SD + '::remove'))
     cx.require(len(cp) == 1 and len(rm) == 1, 'backfill_or_panic no longer has exactly one raw copy and one remove')
     c = cp[0]
+    # argument validation must precede the removal: a panicking backfill must not un-pend the placeholder
+    lenok = False
+    for e, val, ed in bf.facts_at(rm[0].bb):
+        x = e.strip()
+        if val is True and x.kind == 'call' and x.op.endswith('::eq'):
+            if any(n.kind == 'proj' and n.info.get('n') == 'len' for n in x.walk()) and any(n.kind == 'call' and n.op.endswith('::len') and n.args and n.args[0].strip().kind == 'param' for n in x.walk()):
+                lenok = True
+        rel = as_relation((e, val))
+        if rel and rel[0] == 'Eq' and any(n.kind == 'proj' and n.info.get('n') == 'len' for n in rel[1].walk()) and is_call(rel[2], 'len'):
+            lenok = True
+    cx.check(lenok, 'validated-before-remove', bf, rm[0].loc(), 'info.len == src.len() is asserted before the entry is removed (a rejected backfill leaves the placeholder pending)',
+             fail_detail='the placeholder is removed from the pending set before the length of the backfill is validated: a panicking backfill exposes the unfilled bytes')
     cx.check(bf.pos_dominates(rm[0].pos, c.pos), 'removed-first', bf, c.loc(), 'the entry is removed from backrefs before the bytes are written', fail_detail='raw copy not dominated by backrefs.remove')
     facts = bf.facts_at(c.bb)
     ident = any(val is True and e.strip().kind == 'call' and e.strip().op.endswith('::eq') and any(x.pos == rm[0].pos for x in e.calls()) for e, val, ed in facts)
@@ -261,4 +276,43 @@ def r4_5(cx):
     cx.check(is_call(n, 'len') and n.args[0].strip().kind == 'param', 'length', bf, c.loc(), 'copies src.len() bytes', fail_detail='copy length is %s' % show(n)[:60])
 
 
-RULES = [('R4.1', r4_1), ('R4.2', r4_2), ('R4.3', r4_3), ('R4.4', r4_4), ('R4.5', r4_5)]
+def r4_6(cx):
+    """placeholders travel with the bytes they block: take / clear / literals never separate slices from backrefs"""
+    prog = cx.prog
+    from . import c20
+    sub = cx.__class__(cx.prog, cx.profile, cx.prop)
+    sub.rule = 'R20.4'
+    c20.r20_4(sub)
+    for rec in sub.records:
+        rec = dict(rec)
+        rec['instance'] = 'R20.4:' + rec['instance']
+        rec['rule'] = cx.rule
+        cx.records.append(rec)
+    adt = prog.adt(OI)
+    fl = [f['n'] for f in adt['variants'][0]['fields']]
+    n = 0
+    for f in prog.fns.values():
+        if f.d.get('derived'):
+            continue
+        for pos, e in agg_sites(f, adt_key_suffix=adt['key']):
+            n += 1
+            cx.count_sites()
+            sl, br = e.args[fl.index('slices')], e.args[fl.index('backrefs')]
+            from_existing = any(n2.kind == 'proj' and n2.info.get('n') == 'slices' and 'OwningIovec' in (n2.info.get('adt') or '') for n2 in sl.walk())
+            br_same = any(n2.kind == 'proj' and n2.info.get('n') == 'backrefs' for n2 in br.walk())
+            cx.check((not from_existing) or br_same, 'literal:' + short(f.name), f, f.loc(pos.bb), 'an OwningIovec literal never takes the slices of an existing iovec without its pending placeholders',
+                     fail_detail='%s builds an OwningIovec from another one\'s slices but not its backrefs: placeholders are left behind and the bytes they block become visible' % short(f.name))
+    # whole-field replacement of slices / backrefs
+    for f in prog.fns.values():
+        if f.crate != 'owning_iovec' or f.d.get('derived'):
+            continue
+        for cs in f.calls():
+            if cs.callee.endswith('mem::take') or cs.callee.endswith('mem::replace') or cs.callee.endswith('mem::swap'):
+                a = cs.arg(0)
+                touched = {n2.info.get('n') for n2 in a.walk() if n2.kind == 'proj' and n2.info.get('adt', '').endswith('implementation::OwningIovec')}
+                if touched & {'slices', 'backrefs'}:
+                    cx.fail('field-moved:' + short(f.name), f, cs.loc(), '%s moves %s out of an OwningIovec on its own' % (short(cs.callee), sorted(touched)))
+    cx.check(n >= 1, 'literals-examined', None, 'owning_iovec/src/implementation.rs', '%d OwningIovec literal(s) examined' % n)
+
+
+RULES = [('R4.1', r4_1), ('R4.2', r4_2), ('R4.3', r4_3), ('R4.4', r4_4), ('R4.5', r4_5), ('R4.6', r4_6)]
